@@ -58,6 +58,8 @@ func c16setup() {
 		for _, dd := range c16dirs {
 			_ = os.MkdirAll(filepath.Join(d, dd), 0o755)
 		}
+		// the default directory name, for cases that leave Directory empty and run with the root as working directory
+		_ = os.Symlink("pub", filepath.Join(d, "public"))
 	})
 }
 
@@ -113,6 +115,16 @@ func c16fsSx() *Sx {
 func runC16(in *Sx) *Sx {
 	c16setup()
 	opt := flamego.StaticOptions{Directory: filepath.Join(c16root, "pub")}
+	if dd := in.Field("defdir"); dd != nil && dd.Args()[0].Atom == "1" {
+		// Directory left empty: "public" below the working directory (a link to the same tree)
+		opt.Directory = ""
+		if wd, err := os.Getwd(); err == nil {
+			defer func() { _ = os.Chdir(wd) }()
+		}
+		if err := os.Chdir(c16root); err != nil {
+			panic(err)
+		}
+	}
 	opt.Prefix = in.Field("prefix").Args()[0].Bytes()
 	opt.Index = in.Field("index").Args()[0].Bytes()
 	opt.SetETag = in.Field("etag").Args()[0].Atom == "1"
@@ -235,7 +247,7 @@ func genC16(rng *rand.Rand, n int, tier string, emit func(*Sx)) {
 			index = []string{"home.htm", "b.txt", "missing.html"}[rng.Intn(3)]
 		}
 		emit(T("in", T("fs", c16fsSx()), T("dir", X("pub")), T("prefix", X(prefix)), T("index", X(index)), T("etag", B(rng.Intn(3) == 0)),
-			T("expires", B(rng.Intn(4) == 0)), T("cache", B(rng.Intn(4) == 0)), T("method", X(method)), T("path", X(path))))
+			T("expires", B(rng.Intn(4) == 0)), T("cache", B(rng.Intn(4) == 0)), T("method", X(method)), T("path", X(path)), T("defdir", B(rng.Intn(6) == 0))))
 	}
 }
 
